@@ -352,6 +352,29 @@ func FieldStore(base ssa.Value, name string) ssa.Value {
 	return val
 }
 
+// FieldStores returns every Store into field `name` of the struct at base.
+func FieldStores(base ssa.Value, name string) []*ssa.Store {
+	var out []*ssa.Store
+	refs := base.Referrers()
+	if refs == nil {
+		return nil
+	}
+	for _, u := range *refs {
+		fa, ok := u.(*ssa.FieldAddr)
+		if !ok || fieldName(fa.X.Type(), fa.Field) != name {
+			continue
+		}
+		if fr := fa.Referrers(); fr != nil {
+			for _, fu := range *fr {
+				if s, ok := fu.(*ssa.Store); ok && s.Addr == fa {
+					out = append(out, s)
+				}
+			}
+		}
+	}
+	return out
+}
+
 // Unwrap strips interface/type conversions.
 func Unwrap(v ssa.Value) ssa.Value {
 	for {
